@@ -145,6 +145,51 @@ def run_arch_family(prop, tier, seed):
     return report_and_exit(prop, ev, violations)
 
 
+FS_BUDGET = {
+    "C17": {"quick": (12, 10), "thorough": (96, 60)},
+    "C18": {"quick": (24, 10), "thorough": (240, 40)},
+    "C19": {"quick": (24, 10), "thorough": (240, 40)},
+}
+FS_LEVEL = {"C17": "fault_enumeration", "C18": "fault_enumeration", "C19": "exploration"}
+FS_RULE = {
+    "C17": ("per workload (a successful small link) the full grid {17 phase boundaries (+2 in fork "
+            "mode)} x {panic, abort, allocation failure, SIGSEGV, SIGKILL} plus {8 error-return sites} x "
+            "{err} is enumerated, plus step-placed crash faults at random scheduler steps, in fork and "
+            "--no-fork mode, threads 1/2/4, prior output absent/good/unrelated; oracle: exit status 0 => "
+            "output byte-identical to the fault-free output and executable. "),
+    "C18": ("failing links (write-time relocation overflow, failing ASSERT, undefined symbol) and "
+            "successful links with an injected error return at one of 8 sites x prior output state "
+            "(absent, previous good output, unrelated content, busy executable) x write modes x threads "
+            "x fork x schedule; oracle: exit status != 0 => output path absent or identical (inode, "
+            "content, mtime) to before. "),
+    "C19": ("successful and failing links x output names (prog, libfoo.so, a.b.c, noext, .hidden, "
+            "prog.exe) x pre-existing siblings (<stem>.delete, <out>.delete, <out>.layout, <stem>.d, "
+            "...) x requested side files (dependency file, layout) x prior output state x write modes x "
+            "threads x fork x schedule; oracle: directory snapshot (type, mode, size, inode, mtime, "
+            "sha256) after wild and its background worker exited equals the snapshot before except for "
+            "declared outputs. "),
+}
+
+
+def run_fs_family(prop, tier, seed):
+    from . import family_fs
+    nwl, nsched = FS_BUDGET[prop][tier]
+    ev = Evidence(prop, tier, seed, FS_LEVEL[prop])
+    ev.rule = FS_RULE[prop] + ("distinct_nontrivial = distinct (workload, interleaving-hash, fault) with "
+                               "a context switch")
+    ev.assumptions = ["real kernel file-system and signal semantics are taken as given",
+                      "the harness runs as root: permission-bit states are replaced by busy-text and "
+                      "unrelated-content states"]
+    jobs = [{"prop": prop, "seed": seed, "index": i, "tier": tier, "schedules": nsched}
+            for i in range(nwl)]
+    violations = _collect(prop, ev, pool_imap(family_fs.run_job, jobs))
+    if prop == "C17":
+        ev.extra["exhaustive_grid"] = True
+        ev.extra["faults"] = {k: v for k, v in ev.counters.items() if k.startswith("fault_")}
+    _probe_gate(prop, tier, ev)
+    return report_and_exit(prop, ev, violations)
+
+
 def run_err_family(prop, tier, seed):
     from . import family_err
     nwl, nsched = BUDGETS_ERR[tier]
@@ -164,6 +209,10 @@ def run_err_family(prop, tier, seed):
 
 
 REQUIRED_PROBES = {
+    "C17": ["fault_fired_panic", "fault_fired_abort", "fault_fired_alloc", "fault_fired_segv",
+            "fault_fired_kill", "fault_fired_err", "fork", "nofork"],
+    "C18": ["probe_error_exit_before_creator_ran", "fault_fired_err", "prior_busy"],
+    "C19": ["prior_busy", "probe_busy_output_relinked"],
     "C03": ["probe_take_lost", "big_object_classes", "activations"],
     "C40": ["probe_reserve_cas_lost", "probe_reserve_low", "probe_bucket_parked",
             "probe_put_resumes_parked_bucket", "probe_multi_group_sections"],
@@ -221,6 +270,8 @@ def run(prop, tier, seed):
         return run_det_family(prop, tier, seed)
     if prop == "C03":
         return run_arch_family(prop, tier, seed)
+    if prop in FS_BUDGET:
+        return run_fs_family(prop, tier, seed)
     if prop == "C26":
         return run_err_family(prop, tier, seed)
     raise HarnessError(f"no check for {prop}")
@@ -241,6 +292,10 @@ def replay(path):
         job = dict(rp["job"])
         job["prop"] = doc["property"]
         res = family_str.run_job(job)
+    elif fam == "fs":
+        from . import family_fs
+        job = dict(rp["job"])
+        res = family_fs.run_job(job)
     elif fam == "arch":
         from . import family_arch
         job = dict(rp["job"])
